@@ -669,7 +669,8 @@ fn sweep_tiny(ctx: &Ctx, max_trans: u32, base: i64, leap_variants: &[Vec<(i64, i
 /// real-scale table zones: carries across minute/hour/day/month/year, huge offsets
 fn sweep_real_scale(ctx: &Ctx, thorough: bool) -> Tally {
     let cyc = ctx.cyc;
-    let bases: Vec<i64> = vec![946684800 - 3600, 1709164800 + 82800, -1, 951782400 + 84600];
+    // incl. the limits of 32-bit time representations
+    let bases: Vec<i64> = vec![946684800 - 3600, 1709164800 + 82800, -1, 951782400 + 84600, (1i64 << 31) - 3600, -(1i64 << 31) - 3600, (1i64 << 32) - 7200];
     let deltas: [i64; 4] = [0, 3600, 7200, 86400 + 1800];
     let offs: Vec<i32> = if thorough { vec![-50400, -12600, 0, 3600, 50400, i32::MAX, i32::MIN + 1] } else { vec![-50400, -12600, 3600, 50400, i32::MAX] };
     let no = offs.len();
